@@ -2,11 +2,11 @@ SPECIFICATION Spec
 CONSTANTS
   Sess = {1}
   Reps = {"v", "a"}
-  Clients = {"c1"}
+  Clients = {"c1", "c2"}
   NSeg = 2
-  Extra = 0
+  Extra = 1
   First = 5
-  Scripts <- Scripts1x3
+  Scripts <- Scripts2x21
   ErrSets <- OneErr
-  StepGuard = TRUE
+  StepGuard = FALSE
 INVARIANTS QuiescentDef
